@@ -379,6 +379,7 @@ package snaps
 //@   ensures [value] dyntype(input) != T.string && dyntype(input) != gotype("[]byte") ==> b == jsonMarshal(input) && err == jsonMarshalErr(input)
 //@   ensures [valid] err == nil ==> jsonValid(b)
 //@   ensures [fun] b == vjBytesOf(input) && err == vjErrOf(input)
+//@   ensures [owned] err == nil ==> owned(b)
 //@
 //@ func takeJSONSnapshot(c, b) returns (r)
 //@   mode ctl
@@ -390,10 +391,12 @@ package snaps
 //@
 //@ func applyJSONMatchers(b, matchers) returns (out, errs)
 //@   mode ctl
+//@   requires [owned] owned(b)
 //@   assigns nothing
 //@   ensures out == applyJ(b, arr(matchers), len(matchers))
 //@   ensures len(errs) == nerrJ(b, arr(matchers), len(matchers))
-//@   loop 1 invariant 0 <= $idx && $idx <= len(matchers)
+//@   ensures owned(out)
+//@   loop 1 invariant 0 <= $idx && $idx <= len(matchers) && owned(b)
 //@   loop 1 invariant b == applyJ(old(b), arr(matchers), $idx) && len(errors) == nerrJ(old(b), arr(matchers), $idx)
 
 // ---- YAML -----------------------------------------------------------------------------------
